@@ -103,7 +103,7 @@ def check_mesh(rep, dev, spec, mi):
             opp = [v for v in Tn[t] if v not in (a, b)][0]
             # unencroached: the circumcentre is on the same side of the boundary edge as the triangle
             n = np.array([-(S[b] - S[a])[1], (S[b] - S[a])[0]])
-            if np.dot(U[t] - mid, n) * np.dot(S[opp] - mid, n) < -1e-12:
+            if np.dot(U[t] - mid, n) * np.dot(S[opp] - mid, n) < -1e-12 * scale ** 2:      # (length^4: relative to the mesh scale)
                 encroached[k] = True
     # dual edge lengths = Voronoi face lengths wherever locally Delaunay and unencroached
     nd = 0
